@@ -7,6 +7,10 @@ from . import model as M
 from .harness import exc_fact, tb_short
 
 
+class NotNumeric(Exception):
+    """A result that is neither a polynomial array nor a numeric array."""
+
+
 def is_poly(obj):
     import numpoly
 
@@ -17,7 +21,10 @@ def result_model(got):
     """Model array of a real result (ndpoly, ndarray or scalar)."""
     if is_poly(got):
         return M.abstract(got)
-    return M.wrap(numpy.asarray(got))
+    arr = numpy.asarray(got)
+    if arr.dtype.names is not None or arr.dtype.kind not in "biufc":
+        raise NotNumeric(f"{type(got).__name__} with dtype {str(arr.dtype)[:80]}")
+    return M.wrap(arr)
 
 
 def mismatch(got, want, rtol=None):
@@ -26,6 +33,10 @@ def mismatch(got, want, rtol=None):
         have = result_model(got)
     except M.Unmodelable as err:
         return ("value", f"result contains non-finite value {err}")
+    except M.Malformed as err:
+        return ("malformed", f"result polynomial is malformed: {err}")
+    except NotNumeric as err:
+        return ("type", f"result is raw storage, not a polynomial: {err}")
     want = M.wrap(want)
     if tuple(have.shape) != tuple(want.shape):
         return ("shape", f"result shape {tuple(have.shape)} != expected {tuple(want.shape)}")
